@@ -73,6 +73,17 @@ def r11_1_2(ctx: Ctx):
             by_start = bool(key) and isinstance(key[0], ast.Lambda) and norm(key[0].body) == "%s[1]" % key[0].args.args[0].arg
             sorts.append((st, by_start, True))
     ok = bool(inserts) and bool(sorts) and sorts[-1][1] and sorts[-1][2]
+    # ... and unconditionally: "sort only when needed" tests are how blocks end up appended out of file order
+    cond_sort = None
+    pmf_ = parents_map(f.node)
+    for c in calls_in(f.node):
+        if call_name(c) in ("sort", "sorted") and ("_molecules_ordered" in norm(c)) and guards_of(c, pmf_):
+            cond_sort = c
+    if ok and cond_sort is not None:
+        ok = False
+        ctx.ob("R11.1", f, cond_sort, False,
+               "after every insertion of blocks the block list is sorted by start offset -- here only when `%s`: blocks inserted "
+               "otherwise stay where they were appended" % norm(guards_of(cond_sort, pmf_)[0][0])[:80], node=cond_sort)
     if ok:
         sid = cfg.node_of(sorts[-1][0]).id
         ok = all(sid in pdom[cfg.node_of(i).id] and sorts[-1][0].lineno > i.lineno for i in inserts)
